@@ -29,8 +29,10 @@ ASSUMPTIONS = ['CPython reference counting frees dropped diagrams immediately (g
 BUDGET = {'quick': 900, 'thorough': 5400}
 
 VARS = ['a', 'b', 'c']
-MENU2 = ['a', 'b', '~a', 'a & b', 'a | b', '(a & ~b) | (~a & b)', '0', '1']
-MENU3 = MENU2 + ['c', '(a & b) | c', '(a | b) & ~c', 'b & c', '(a & c) | (~a & b)']
+MENU2 = ['a', 'b', '~a', 'a & b', 'a | b', '(a & ~b) | (~a & b)', '0', '1', 'a and b and not a',
+         'a or not b or 0']
+MENU3 = MENU2 + ['c', '(a & b) | c', '(a | b) & ~c', 'b & c', '(a & c) | (~a & b)', 'a and b and c',
+                 'a or b or c or not a']
 
 
 def configs(tier):
